@@ -15,6 +15,7 @@ from ..interp import (Interp, State, Num, BoolV, StructV, EnumV, TupleV, RefV, C
 from .common import *
 
 GP = 'synth_utils::glide_processor::GlideProcessor'
+GP_FIELDS = {'min_fc', 'max_fc', 'fs', 'lpf', 'cached_t'}
 DF1 = 'biquad::DirectForm1'
 COEF = 'biquad::coefficients::Coefficients'
 FS_MIN, FS_MAX = 100, 192000
@@ -146,7 +147,7 @@ def check_glide(res, facts, prop):
     where_new = where_of(facts, GP + '::new')
     it0, outs0, S = gl.new_summary(res)
     tmpl = None
-    for o in outs0:
+    for o in sem_iter(outs0):
         if o.status != 'returned' or not isinstance(o.ret, StructV):
             res.ob('R-GLIDE', 'new()', False, 'GlideProcessor::new ends with %s: %s' % (o.status, o.panic_info), where_new, key='R-GLIDE:new')
             continue
@@ -193,14 +194,14 @@ def check_glide(res, facts, prop):
             continue
         res.absorb(it)
         cached = pre.get('cached_t').term
-        for o in outs:
+        for o in sem_iter(outs):
             n += 1
             inst = 'set_time|' + pname
             if o.status != 'returned':
                 res.ob('R-GLIDE' if prop == 'C13' else 'R-DEADBAND', inst, False, 'path ends with %s: %s' % (o.status, o.panic_info), where, key='R-GLIDE:%s:%s' % (inst, o.status))
                 continue
             post = o.cells[cell]
-            ch = set(changed_fields(pre, post))
+            ch = set(spec_fields_changed(pre, post, GP_FIELDS))
             within_a = o.ctx.decide(cmp_term('Le', tterm - cached, DEAD))
             within_b = o.ctx.decide(cmp_term('Le', cached - tterm, DEAD))
             honoured = any(c.startswith('lpf.coeffs') for c in ch)
@@ -293,7 +294,7 @@ def check_process(res, facts, gl, tmpl, ctx0):
     g = lambda n: c.get(n).term
     s = lambda n: l0.get(n).term
     exp = g('b0') * x.term + g('b1') * s('x1') + g('b2') * s('x2') - g('a1') * s('y1') - g('a2') * s('y2')
-    for o in outs:
+    for o in sem_iter(outs):
         ok = o.status == 'returned' and isinstance(o.ret, Num) and o.ret.term == exp
         res.ob('R-GLIDE', 'process: y = b0*x + b1*x1 + b2*x2 - a1*y1 - a2*y2', ok, 'process returns %r' % (o.ret,), where, key='R-GLIDE:recurrence')
         if o.status != 'returned':
@@ -301,5 +302,5 @@ def check_process(res, facts, gl, tmpl, ctx0):
         l1 = o.cells[cell].get('lpf')
         ok2 = l1.get('x1').term == x.term and l1.get('x2').term == s('x1') and l1.get('y1').term == exp and l1.get('y2').term == s('y1') and same(l1.get('coeffs'), c)
         res.ob('R-GLIDE', 'process: state = (previous input, previous output)', ok2, 'state after process: %r' % (l1,), where, key='R-GLIDE:state-shift')
-        ch = [x_ for x_ in changed_fields(pre, o.cells[cell]) if not x_.startswith('lpf.')]
+        ch = [x_ for x_ in spec_fields_changed(pre, o.cells[cell], GP_FIELDS) if not x_.startswith('lpf.')]
         res.ob('R-GLIDE', 'process: touches only the filter state', not ch, 'changes %s' % ch, where, key='R-GLIDE:process-writes')
